@@ -85,4 +85,27 @@ theorem first_after_break_new_combo_decoded_float [Trig Float32]
     ∃ h', ho.hitObjects[i]? = some h' ∧ kindNewCombo h'.kind = true ∧ h'.startTime = h.startTime :=
   first_after_break_new_combo_decoded NotNaN le_lt_ieee st ho hfin hNb hNh hsorted b hb i h hi hafter hfirst hnh
 
+/-! ### non-vacuity: actual doubles (two breaks in order, objects before / between) -/
+
+def fCircle (t : Float) : HitObject Float Float32 :=
+  { startTime := t, kind := .circle { pos := ⟨0, 0⟩, newCombo := false, comboOffset := 0 }, samples := [] }
+def fBreak (s e : Float) : BreakPeriod Float := { startTime := s, endTime := e }
+
+example : ∃ h', (postProcessBreaks [fBreak 100 200.5, fBreak 300 400] [fCircle 50, fCircle 250.25, fCircle 260] 0)[1]?
+      = some h' ∧ kindNewCombo h'.kind = true ∧ h'.startTime = (fCircle 250.25).startTime ∧
+        h'.samples = (fCircle 250.25).samples :=
+  first_after_break_new_combo_float _ _
+    (by intro b hb; simp at hb; rcases hb with rfl | rfl <;> decide +kernel)
+    (by intro x hx; simp at hx; rcases hx with rfl | rfl | rfl <;> decide +kernel)
+    (pairwise_of_consecutive_le_float _ (by
+      intro i b₁ b₂ h1 h2
+      cases i with
+      | zero => simp at h1 h2; subst h1 h2; decide +kernel
+      | succ i => cases i <;> simp at h1 h2))
+    (fBreak 100 200.5) (by simp) 1 (fCircle 250.25) rfl (by decide +kernel)
+    (by intro k h' hk hk'
+        have : k = 0 := by omega
+        subst this; simp at hk'; subst hk'; decide +kernel)
+    rfl
+
 end Rosu.C15
